@@ -3,15 +3,23 @@
 package proxy
 
 // C10, last clause: "a CircuitBreaker wrapped around the call records exactly one outcome per
-// client request however many retries it contained".
+// client request however many retries it contained" — for every body mode of the client
+// request (the property quantifies over stream / buffered bodies): a buffered request may be
+// retried, a streamed one gets its single attempt, and either way ONE outcome (that of the
+// last attempt made) reaches the breaker, and an open breaker short-circuits either kind.
 //
 // Observation without touching the breaker's internals: a COUNT_BASED breaker with window
 // 50 (never evicts in these sequences), minimumNumberOfCalls M and failureRateThreshold T in
 // {1,100} opens right after the first client request j with j >= M recorded outcomes and
 // (T=1) at least one recorded failure resp. (T=100) only failures.  Every later request is
 // short-circuited (waitDurationInOpenState 1h): result shortCircuited, 503, transport not
-// reached.  If the breaker recorded attempts instead of requests, or the outcome of an
-// attempt other than the last, the first short-circuited request moves.
+// reached.  If the breaker recorded attempts instead of requests, the outcome of an attempt
+// other than the last, or no outcome at all for some kind of request, the first
+// short-circuited request moves.
+//
+// The histories mix streamed and buffered client requests (body mix: mixed / stream-only /
+// buffered-only), pools with and without a Retry policy inside the breaker, and pools with a
+// time limit whose backend may hang (failure = timeout/408).
 
 import (
 	"fmt"
@@ -21,15 +29,37 @@ import (
 )
 
 type c10BrkCase struct {
-	Pool     c10PoolCfg    `json:"pool"`
-	Requests [][]c10Step   `json:"requests"`
+	BodyMix  string      `json:"bodyMix"`
+	Pool     c10PoolCfg  `json:"pool"`
+	Requests [][]c10Step `json:"requests"`
+	Streams  []bool      `json:"streamBody"` // body mode of request q
+}
+
+func c10BodyMode(stream bool) string {
+	if stream {
+		return "stream"
+	}
+	return "buffered"
+}
+
+// c10History names the body modes of the requests the reference has counted so far.
+func c10History(nStream, nBuffered int) string {
+	switch {
+	case nStream == 0 && nBuffered == 0:
+		return "none"
+	case nStream == 0:
+		return "buffered-only"
+	case nBuffered == 0:
+		return "stream-only"
+	}
+	return "mixed"
 }
 
 func TestVerif_C10_Breaker(t *testing.T) {
 	r := kit.Start(t, "C10")
 	defer r.Finish()
-	r.Rule("pool with Retry (maxAttempts 2..4, wait 5..10 ms) inside a COUNT_BASED CircuitBreaker (window 50, minimumNumberOfCalls 2..6, failureRateThreshold 1 or 100); 6..12 client requests each with its own attempt script (fail..fail, fail..ok, ok); reference counts ONE outcome (that of the last attempt) per client request and predicts the first short-circuited request; distinct = (M, T, maxAttempts, index of first short-circuited request, attempts before it)")
-	r.Assume("failureRateThreshold 1 and 100 make the integer failure rate unambiguous; slow-call threshold and wait-in-open are 1h so neither plays a role")
+	r.Rule("pool with a COUNT_BASED CircuitBreaker (window 50, minimumNumberOfCalls 2..6, failureRateThreshold 1 or 100) around a Retry policy (maxAttempts 2..4, wait 5..10 ms; omitted in 1 of 6 cases), in a third of the cases with a pool time limit of 10..30 ms and a backend that may hang; 6..12 client requests each with its own attempt script (fail..fail, fail..ok, ok; failure = failure code, network error or hang->timeout) and its own body mode: body mix mixed (each request streamed with probability 1/2), stream-only or buffered-only; reference counts ONE outcome (that of the last attempt made; a streamed body gets exactly one attempt) per client request whatever its body mode and predicts the first short-circuited request; distinct = (body mix, retry present, time limit present, M, T, maxAttempts, index of first short-circuited request, attempts before it, body mode of the request that opened the breaker)")
+	r.Assume("failureRateThreshold 1 and 100 make the integer failure rate unambiguous; slow-call threshold and wait-in-open are 1h so neither plays a role; a streamed body is a request whose payload was fetched with limit -1 (HTTPServer clientMaxBodySize -1)")
 
 	old := fnSendRequest
 	fnSendRequest = c10Transport
@@ -46,7 +76,19 @@ func TestVerif_C10_Breaker(t *testing.T) {
 		c.Pool.Retry = &c10RetryCfg{MaxAttempts: max, Wait: []string{"5ms", "8ms", "10ms"}[rng.Intn(3)], BackOff: []string{"", "exponential"}[rng.Intn(2)], RF: []float64{0, 0.5}[rng.Intn(2)]}
 		c.Pool.Breaker = &c10BreakerCfg{MinCalls: 2 + (i/3)%5, Threshold: []int{1, 100}[(i/15)%2], Window: 50}
 		c.Pool.FailureCodes = []int{500, 503}
+		c.BodyMix = []string{"mixed", "stream-only", "mixed", "buffered-only"}[(i/30)%4]
+		if rng.Intn(3) == 0 {
+			c.Pool.Timeout = []string{"10ms", "20ms", "30ms"}[rng.Intn(3)]
+		}
+		effMax := max // attempts a buffered request may get
+		if rng.Intn(6) == 0 {
+			c.Pool.Retry = nil // breaker only
+			effMax = 1
+		}
 		fail := func() c10Step {
+			if c.Pool.Timeout != "" && rng.Intn(3) == 0 {
+				return c10Step{Kind: "hang"}
+			}
 			if rng.Intn(2) == 0 {
 				return c10Step{Kind: "neterr"}
 			}
@@ -74,6 +116,14 @@ func TestVerif_C10_Breaker(t *testing.T) {
 				}
 			}
 			c.Requests = append(c.Requests, s)
+			stream := rng.Intn(2) == 0
+			switch c.BodyMix {
+			case "stream-only":
+				stream = true
+			case "buffered-only":
+				stream = false
+			}
+			c.Streams = append(c.Streams, stream)
 		}
 		r.Case(i, c)
 		p, err := c10NewProxy(&c.Pool)
@@ -82,12 +132,24 @@ func TestVerif_C10_Breaker(t *testing.T) {
 			r.Note("rejected by validation: %v", err)
 			continue
 		}
-		// reference: one recorded outcome per client request
+		// reference: one recorded outcome per client request, whatever its body mode
 		recorded, failures, open := 0, 0, false
-		firstShort, attemptsBefore := -1, 0
+		// the same book without the outcomes of streamed requests: only used to tell whether
+		// this history's opening DEPENDS on streamed outcomes (coverage, never a verdict)
+		recordedBuf, failuresBuf := 0, 0
+		nStream, nBuffered := 0, 0
+		firstShort, attemptsBefore, openedBy := -1, 0, "none"
 		okCase := true
+		opens := func(rec, fl int) bool {
+			if rec < c.Pool.Breaker.MinCalls {
+				return false
+			}
+			return (c.Pool.Breaker.Threshold == 1 && fl >= 1) || (c.Pool.Breaker.Threshold == 100 && fl == rec)
+		}
 		for q, script := range c.Requests {
-			res := c10Do(p, script, false, -1, c10PanicSite)
+			stream := c.Streams[q]
+			mode := c10BodyMode(stream)
+			res := c10Do(p, script, stream, -1, c10PanicSite)
 			r.Eval(1)
 			if res.Watchdog {
 				r.Inconclusive("harness watchdog (120 s) fired in breaker sequence")
@@ -99,27 +161,40 @@ func TestVerif_C10_Breaker(t *testing.T) {
 				okCase = false
 				break
 			}
+			// which kind of request, after which kinds of counted requests
+			where := ":request=" + mode + ":counted-before=" + c10History(nStream, nBuffered)
 			det := func() map[string]interface{} {
-				return map[string]interface{}{"case": c, "request_index": q, "observed": res, "reference": map[string]interface{}{"recorded": recorded, "failures": failures, "open": open}}
+				return map[string]interface{}{"case": c, "request_index": q, "request_body": mode, "observed": res, "reference": map[string]interface{}{"recorded": recorded, "failures": failures, "open": open, "recorded_streamed": nStream, "recorded_buffered": nBuffered}}
 			}
 			short := res.Result == resultShortCircuited
 			if open {
 				if !short || len(res.Attempts) != 0 || res.Status != 503 {
-					r.Violation("C10:breaker:request-not-short-circuited-although-reference-open(one-outcome-per-request)", det())
+					r.Violation("C10:breaker:request-not-short-circuited-although-reference-open(one-outcome-per-request)"+where, det())
 					okCase = false
 					break
 				}
 				r.Count("short_circuited_requests", 1)
+				r.Count("short_circuited_requests_"+mode+"_body", 1)
 				continue
 			}
 			if short {
-				r.Violation("C10:breaker:short-circuited-before-reference-opens(more-than-one-outcome-per-request?)", det())
+				r.Violation("C10:breaker:short-circuited-before-reference-opens(more-than-one-outcome-per-request?)"+where, det())
 				okCase = false
 				break
 			}
 			m := len(res.Attempts)
 			if m == 0 {
-				r.Violation("C10:breaker:no-attempt-made", det())
+				r.Violation("C10:breaker:no-attempt-made"+where, det())
+				okCase = false
+				break
+			}
+			if stream && m != 1 {
+				r.Violation(fmt.Sprintf("C10:breaker:stream-body-attempted-%d-times", m), det())
+				okCase = false
+				break
+			}
+			if !stream && m > effMax {
+				r.Violation("C10:breaker:more-attempts-than-maxAttempts", det())
 				okCase = false
 				break
 			}
@@ -128,35 +203,76 @@ func TestVerif_C10_Breaker(t *testing.T) {
 				r.Count("requests_with_retries_inside_breaker", 1)
 			}
 			last := res.Attempts[m-1]
-			wr, ws, wb := c10ExpectFinal(last)
-			if res.Result != wr || res.Status != ws || res.Body != wb {
+			if !c10FinalOK(&c.Pool, last, &res) {
 				r.Violation(fmt.Sprintf("C10:breaker:final-outcome-not-last-attempts:last=%s:got=%s/%d", last.Kind, res.Result, res.Status), det())
 				okCase = false
 				break
+			}
+			if last.Kind == "hang" && res.Result == resultTimeout {
+				r.Count("timeout_408_inside_breaker_"+mode+"_body", 1)
 			}
 			recorded++
 			if last.Kind != "ok" {
 				failures++
 			}
-			if recorded >= c.Pool.Breaker.MinCalls {
-				if (c.Pool.Breaker.Threshold == 1 && failures >= 1) || (c.Pool.Breaker.Threshold == 100 && failures == recorded) {
-					open = true
-					firstShort = q + 1
+			if stream {
+				nStream++
+				r.Count("stream_requests_counted_by_reference", 1)
+				if last.Kind != "ok" && c.Pool.Retry != nil {
+					// a buffered body would have been retried here (maxAttempts >= 2)
+					r.Count("stream_request_not_retried_inside_breaker", 1)
 				}
+			} else {
+				nBuffered++
+				recordedBuf++
+				if last.Kind != "ok" {
+					failuresBuf++
+				}
+			}
+			if opens(recorded, failures) {
+				open = true
+				firstShort = q + 1
+				openedBy = mode
 			}
 		}
 		if okCase {
-			r.Cover(fmt.Sprintf("breaker/M%d/T%d/max%d/firstShort%d/attempts%d", c.Pool.Breaker.MinCalls, c.Pool.Breaker.Threshold, max, firstShort, attemptsBefore))
+			r.Cover(fmt.Sprintf("breaker/%s/retry=%v/limit=%v/M%d/T%d/max%d/firstShort%d/attempts%d/openedBy=%s", c.BodyMix, c.Pool.Retry != nil, c.Pool.Timeout != "", c.Pool.Breaker.MinCalls, c.Pool.Breaker.Threshold, max, firstShort, attemptsBefore, openedBy))
+			r.Count("history_"+c.BodyMix, 1)
+			if c.Pool.Retry == nil {
+				r.Count("history_breaker_without_retry", 1)
+			}
 			if firstShort >= 0 && firstShort < len(c.Requests) {
+				// the prediction was put to the test: a later request was short-circuited
 				r.Count("breaker_opened_at_predicted_request", 1)
+				r.Count("breaker_opened_by_"+openedBy+"_body_request", 1)
+				if nStream > 0 && !opens(recordedBuf, failuresBuf) {
+					// without the outcomes of the streamed requests the breaker would not
+					// have opened at that request: their outcomes decided
+					r.Count("opening_depends_on_streamed_outcomes", 1)
+				}
+				if nStream > 0 && nBuffered > 0 {
+					r.Count("opening_after_mixed_history", 1)
+				}
 			}
 			if firstShort < 0 {
 				r.Count("breaker_stayed_closed_as_predicted", 1)
+				if nStream > 0 {
+					r.Count("breaker_stayed_closed_with_streamed_requests", 1)
+				}
 			}
 		}
 		p.Close()
 	}
-	r.Require("breaker_opened_at_predicted_request", 1)
-	r.Require("requests_with_retries_inside_breaker", 1)
-	r.Require("short_circuited_requests", 1)
+	for _, k := range []string{
+		"breaker_opened_at_predicted_request", "requests_with_retries_inside_breaker", "short_circuited_requests",
+		// both body modes must have been exercised on both sides of the opening
+		"stream_requests_counted_by_reference", "stream_request_not_retried_inside_breaker",
+		"short_circuited_requests_stream_body", "short_circuited_requests_buffered_body",
+		"breaker_opened_by_stream_body_request", "breaker_opened_by_buffered_body_request",
+		"opening_depends_on_streamed_outcomes", "opening_after_mixed_history",
+		"history_mixed", "history_stream-only", "history_buffered-only", "history_breaker_without_retry",
+		"timeout_408_inside_breaker_stream_body", "timeout_408_inside_breaker_buffered_body",
+	} {
+		r.Require(k, 1)
+	}
 }
